@@ -87,6 +87,12 @@ def cases(tier, seed):
         bad("u%d-dec-overflow" % n, ty, str(mx + 1))
         bad("u%d-dec-overflow2" % n, ty, str(mx + 2) + "_")
         bad("u%d-dec-overflow-long" % n, ty, "1" + "0" * 90)
+        # values that fit again after truncation to a machine width (after S44): 2^m + v for every wider machine width m
+        if n < 256:
+            for m in (8, 16, 32, 64, 128):
+                if m > n or (n < 8 and m == 8):
+                    for v in (0, 1, mx):
+                        bad("u%d-dec-wraps-at-%d-plus-%d" % (n, m, v), ty, str((1 << m) + v))
         bad("u%d-dec-nodigit" % n, ty, "_")
         bad("u%d-dec-nodigit2" % n, ty, "___")
         bad("u%d-bin-nodigit" % n, ty, "0b_")
